@@ -227,8 +227,67 @@ def sibling_isolation(h: Harness):
     h.count("sibling-isolation-grammar")
 
 
+def float_refinements(h: Harness):
+    """FloatRange / FloatList fields (floats are not modelled: the range check is done here) in every representation,
+    on created genotypes AND on mutated / crossed ones (operators rewrite genes with other ranges than creation uses)"""
+    from linear import DSGE, GE, SGE, Stack, safe
+    from geneticengine.random.sources import NativeRandomSource
+    from geneticengine.representations.tree.treebased import TreeBasedRepresentation
+    C = gram.ClassSpec
+    spec = gram.Spec([C("A0", True, None), C("Leaf", False, 0, [("x", ("ann", "float", "floatRange")), ("k", ("ann", "int", ("intRange", 0, 3)))]),
+                      C("Pick", False, 0, [("y", ("ann", "float", ("floatList", 4)))]),
+                      C("Node", False, 0, [("l", ("cls", 0)), ("r", ("cls", 0)), ("z", ("ann", "float", "floatRange"))])], 0, [1, 2, 3])
+    b = gram.build(spec)
+    g = b.extract()
+    rng = h.rng
+
+    def bad_floats(p):
+        out = []
+        stack = [p]
+        while stack:
+            v = stack.pop()
+            if type(v) in b.index:
+                for (fn, ft) in spec.classes[b.index[type(v)]].fields:
+                    x = getattr(v, fn)
+                    if ft == ("ann", "float", "floatRange") and not (type(x) is float and -1.5 <= x <= 2.5):
+                        out.append(f"{type(v).__name__}.{fn} = {x!r} is not a float in FloatRange(-1.5, 2.5)")
+                    elif ft == ("ann", "float", ("floatList", 4)) and x not in (0.0, 0.5, 1.0, 1.5):
+                        out.append(f"{type(v).__name__}.{fn} = {x!r} is not in FloatList([0.0, 0.5, 1.0, 1.5])")
+                    stack.append(x)
+            elif isinstance(v, (list, tuple)):
+                stack.extend(v)
+        return out
+
+    for trial in range(h.n(12, 120)):
+        shared = NativeRandomSource(rng.randrange(10**6))
+        reps = [("tree", TreeBasedRepresentation(g, synth.make_decider("grow", 4, shared, g))),
+                ("GE", GE(g, synth.make_decider("grow", 4, shared, g), gene_length=32)),
+                ("SGE", SGE(g, synth.make_decider("grow", 4, shared, g), gene_length=32)),
+                ("DynamicSGE", DSGE(g, 4))]
+        for name, rep in reps:
+            st, geno = safe(lambda: rep.create_genotype(shared))
+            if st != "ok":
+                continue
+            prev = geno
+            for step in range(6):
+                st, p = safe(lambda: rep.genotype_to_phenotype(geno))
+                if st == "ok":
+                    h.count(f"float-fields:{name}")
+                    h.seen(f"float:{name}:{trial}:{step}", nontrivial=True)
+                    bad = bad_floats(p)
+                    if bad:
+                        h.fail(f"{name}.genotype_to_phenotype", "refinement-violated",
+                               f"after {step} variation steps: {bad[0]} ({len(bad)} fields)", [name, trial, step])
+                        break
+                st, nxt = safe(lambda: rep.mutate(shared, geno) if step % 3 != 2 else rep.crossover(shared, geno, prev)[0])
+                if st != "ok":
+                    break
+                prev, geno = geno, nxt
+
+
 def run(h: Harness):
     boxes(h)
+    float_refinements(h)
     sibling_isolation(h)
     # a refinement re-declared on an already used class (the documented `Cls.__init__.__annotations__[f] = ...` idiom):
     # the next grammar must generate from the NEW refinement
